@@ -11,6 +11,8 @@ ASSUMPTIONS = ["pynurbs split/derivative matrices are modelled (de Casteljau / n
 
 
 def run(ctx):
+    from harness import fidelity
+    fidelity.check(ctx, ['comb', 'horner', 'caract'])
     from shapepy import PlanarCurve
     from shapepy.curve import Math, IntegratePlanar
     from shapepy.polygon import Point2D
